@@ -15,6 +15,7 @@ import (
 	"github.com/cedar-policy/cedar-go/verif/c07"
 	"github.com/cedar-policy/cedar-go/verif/c08"
 	"github.com/cedar-policy/cedar-go/verif/c09"
+	"github.com/cedar-policy/cedar-go/verif/c11"
 	"github.com/cedar-policy/cedar-go/verif/c20"
 	"github.com/cedar-policy/cedar-go/verif/core"
 )
@@ -29,6 +30,7 @@ var registry = map[string]func() *core.Check{
 	"C07": c07.Check,
 	"C08": c08.Check,
 	"C09": c09.Check,
+	"C11": c11.Check,
 	"C20": c20.Check,
 }
 
